@@ -40,6 +40,20 @@ import (
 	"github.com/VKCOM/statshouse/internal/verif/mc"
 )
 
+// event kinds (see c08Send); an event's bit in the row count is (burst*2+order)*c08Kinds+kind
+const (
+	c08KindCounter = iota
+	c08KindValue
+	c08KindUnique
+	c08KindHistogram
+	c08Kinds
+)
+
+var c08KindNames = [c08Kinds]string{"counter", "value", "unique", "histogram"}
+
+func c08BitOrder(bit int) int { return (bit / c08Kinds) & 1 }
+func c08BitKind(bit int) int  { return bit % c08Kinds }
+
 const (
 	// 1000 days: multiple of 1920 = lcm(128, 60), so that offsets -3,-1 | 0,+1 straddle a boundary of every
 	// resolution and of the ring.
@@ -210,7 +224,12 @@ func c08NewAgent(w *c08World, profile int, currentTime uint32) *Agent {
 
 // c08Send pushes one event through the real receive path (what cmd/statshouse worker.HandleMetrics does
 // after it resolved the metric: fill time and meta, Agent.Map, Agent.ApplyMetric).
-func c08Send(a *Agent, md *c08Metric, series [2]string, permuted bool, ts uint32, weight float64, receive time.Time, scratch *[]byte) {
+//
+// kind: what the event carries besides its weight (ApplyMetric has one branch per kind, each with its own
+// primary-shard and secondary-shard call): c08KindCounter = counter only, c08KindValue = one value,
+// c08KindUnique = one unique, c08KindHistogram = one histogram entry; the weight is the event's counter in every
+// kind, so the row's count is the sum of the weights of the events it contains whatever their kinds are.
+func c08Send(a *Agent, md *c08Metric, series [2]string, permuted bool, kind int, ts uint32, weight float64, receive time.Time, scratch *[]byte) {
 	tags := []tl.DictFieldStringStringBytes{
 		{Key: []byte("1"), Value: []byte(series[0])},
 		{Key: []byte("2"), Value: []byte(series[1])},
@@ -219,6 +238,14 @@ func c08Send(a *Agent, md *c08Metric, series [2]string, permuted bool, ts uint32
 		tags[0], tags[1] = tags[1], tags[0]
 	}
 	m := tlstatshouse.MetricBytes{Name: []byte(md.meta.Name), Tags: tags, Counter: weight, Ts: ts}
+	switch kind {
+	case c08KindValue:
+		m.Value = []float64{1.5}
+	case c08KindUnique:
+		m.Unique = []int64{77}
+	case c08KindHistogram:
+		m.Histogram = [][2]float64{{2.5, 1}}
+	}
 	var h data_model.MappedMetricHeader
 	h.ReceiveTime = receive
 	h.Key.Timestamp = ts
@@ -234,7 +261,7 @@ func c08ReferenceSecond(w *c08World, meta *format.MetricMetaValue, v1, v2 string
 	a := c08NewAgent(w, 0, ts)
 	md := &c08Metric{meta: meta}
 	var scratch []byte
-	c08Send(a, md, [2]string{v1, v2}, false, ts, 1, time.Unix(int64(ts), 0), &scratch)
+	c08Send(a, md, [2]string{v1, v2}, false, c08KindCounter, ts, 1, time.Unix(int64(ts), 0), &scratch)
 	sh := a.Shards[0]
 	for i := 0; i < superQueueLen; i++ {
 		sh.FlushAllDataSingleStep(false)
@@ -275,6 +302,8 @@ type c08Ev struct {
 	mustMatch bool // not late at acceptance and no pause since: must be sent in second sref
 	dropped   bool
 	delivered int
+	placed    bool // found in exactly one ring slot right after ApplyMetric
+	slot      int
 }
 
 type c08AgentRun struct {
@@ -441,9 +470,11 @@ func (r *c08Run) opEvent(k int, offset int, res uint32) {
 			}
 			for si, s := range md.series {
 				for order := 0; order < 2; order++ {
-					bit := k*2 + order
-					c08Send(g.a, md, s, order == 1, ts, float64(uint64(1)<<uint(bit)), r.now(), &r.scratch)
-					sent = append(sent, c08EvKey{0, mi, si, bit})
+					for kind := 0; kind < c08Kinds; kind++ {
+						bit := (k*2+order)*c08Kinds + kind
+						c08Send(g.a, md, s, order == 1, kind, ts, float64(uint64(1)<<uint(bit)), r.now(), &r.scratch)
+						sent = append(sent, c08EvKey{0, mi, si, bit})
+					}
 				}
 			}
 		}
@@ -472,8 +503,8 @@ func (r *c08Run) opEvent(k int, offset int, res uint32) {
 				places := loc[key]
 				ct, st := p[shard].ct, p[shard].st
 				name := func() string {
-					return fmt.Sprintf("event(metric %s series %v %s order, ts=base%+d) on agent(profile %d) shard %d [CurrentTime=base%+d SendTime=base%+d]",
-						md.meta.Name, md.series[e.series], [2]string{"canonical", "permuted"}[e.bit&1], int64(ts)-int64(c08Base), g.profile, shard,
+					return fmt.Sprintf("%s event(metric %s series %v %s order, ts=base%+d) on agent(profile %d) shard %d [CurrentTime=base%+d SendTime=base%+d]",
+						c08KindNames[c08BitKind(e.bit)], md.meta.Name, md.series[e.series], [2]string{"canonical", "permuted"}[c08BitOrder(e.bit)], int64(ts)-int64(c08Base), g.profile, shard,
 						int64(ct)-int64(c08Base), int64(st)-int64(c08Base))
 				}
 				ev := &c08Ev{}
@@ -498,7 +529,11 @@ func (r *c08Run) opEvent(k int, offset int, res uint32) {
 					case beforeStart:
 						r.outcomes["drop:secondary-before-start"] = struct{}{}
 					default:
-						r.violate("dropped-without-reason", "%s was dropped although the receive queue has no gap, no shutdown was requested and it is not a secondary shard before its start time", name())
+						sig := "dropped-without-reason"
+						if kd := c08BitKind(e.bit); kd != c08KindCounter {
+							sig += ":" + c08KindNames[kd] + "-event"
+						}
+						r.violate(sig, "%s was dropped although the receive queue has no gap, no shutdown was requested and it is not a secondary shard before its start time", name())
 					}
 					continue
 				}
@@ -508,6 +543,7 @@ func (r *c08Run) opEvent(k int, offset int, res uint32) {
 				}
 				pl := places[0]
 				ev.rowTs = pl.rowTs
+				ev.placed, ev.slot = true, pl.slot
 				// timestamps of low-resolution metrics are rounded down to a multiple of the resolution
 				if ts <= ct {
 					if want := ts / md.res * md.res; pl.rowTs != want {
@@ -525,6 +561,37 @@ func (r *c08Run) opEvent(k int, offset int, res uint32) {
 				ev.mustMatch = ev.sref >= st
 				if !ev.mustMatch {
 					r.edge = true
+				}
+			}
+		}
+		// "its send second depends only on the metric, its original tag values and the timestamp": what the event
+		// carries (counter / value / unique / histogram) decides neither acceptance nor the slot nor the row timestamp.
+		// The events of one (burst, metric, series, tag order) were applied back to back under the same cursors.
+		for _, e := range sent {
+			kd := c08BitKind(e.bit)
+			if kd == c08KindCounter {
+				continue
+			}
+			md := r.w.metrics[e.metric]
+			for shard := 0; shard < 2; shard++ {
+				if shard == 1 && !md.twin {
+					continue
+				}
+				ev := g.ev[c08EvKey{shard, e.metric, e.series, e.bit}]
+				ref := g.ev[c08EvKey{shard, e.metric, e.series, e.bit - kd}]
+				if ev == nil || ref == nil || (!ev.dropped && !ev.placed) || (!ref.dropped && !ref.placed) {
+					continue // placed-twice, reported above
+				}
+				if ev.dropped != ref.dropped || ev.slot != ref.slot || ev.rowTs != ref.rowTs {
+					fate := func(x *c08Ev) string {
+						if x.dropped {
+							return "dropped"
+						}
+						return fmt.Sprintf("slot %d with row timestamp base%+d", x.slot, int64(x.rowTs)-int64(c08Base))
+					}
+					r.violate("event-kind-decides-placement", "metric %s series %v %s order, ts=base%+d, agent(profile %d) shard %d [CurrentTime=base%+d SendTime=base%+d]: the counter event: %s, the %s event sent right after it: %s",
+						md.meta.Name, md.series[e.series], [2]string{"canonical", "permuted"}[c08BitOrder(e.bit)], int64(ts)-int64(c08Base), g.profile, shard,
+						int64(p[shard].ct)-int64(c08Base), int64(p[shard].st)-int64(c08Base), fate(ref), c08KindNames[kd], fate(ev))
 				}
 			}
 		}
@@ -583,7 +650,7 @@ func (r *c08Run) checkBucket(g *c08AgentRun, shard int, b *data_model.MetricsBuc
 			}
 			if ev.mustMatch && b.Time != ev.sref {
 				r.violate("send-second-differs", "%s delivers the not-late row (metric %s series %v %s order, timestamp base%+d); the reference agent (all mappings cached, canonical tag order) sends that series in second base%+d",
-					where, md.meta.Name, md.series[ci.series], [2]string{"canonical", "permuted"}[bit&1], int64(ci.rowTs)-int64(c08Base), int64(ev.sref)-int64(c08Base))
+					where, md.meta.Name, md.series[ci.series], [2]string{"canonical", "permuted"}[c08BitOrder(bit)], int64(ci.rowTs)-int64(c08Base), int64(ev.sref)-int64(c08Base))
 			}
 			r.outcomes[fmt.Sprintf("res%d must=%v dt=%d", md.res, ev.mustMatch, int64(b.Time)-int64(ci.rowTs))] = struct{}{}
 		}
@@ -732,7 +799,7 @@ func (r *c08Run) stateKey() string {
 			for b := 0; b < 40; b++ {
 				if it.bits&(1<<uint(b)) != 0 {
 					if ev := g.ev[c08EvKey{it.shard, it.metric, it.series, b}]; ev != nil {
-						flags = append(flags, fmt.Sprintf("%v%v", ev.mustMatch, b&1))
+						flags = append(flags, fmt.Sprintf("%v%v", ev.mustMatch, c08BitOrder(b)))
 					} else {
 						flags = append(flags, "?")
 					}
